@@ -12,7 +12,7 @@ C18 — property theorems, part 1: <cctype>, <cwctype>, div/labs (part 2, string
   the whole destination allocation is `Spec.splice …`, i.e. every unit outside the extent C
   defines is unchanged.
 -/
-import TetlProofs.C18.Lemmas
+import TetlProofs.C18.LemmasCtype
 namespace Tetl.C18.Props
 open Tetl Tetl.C18
 set_option linter.unusedSimpArgs false
